@@ -30,6 +30,15 @@ RULE = ('T2: generated API-level requests and responses (all body source types, 
 	'Content-Type (charsets in which the text has another length, quoted / upper case / duplicated / nested charset parameters, unknown and unencodable charsets) against content supplied as text pieces and '
 	'against the charset of the body; URI and field metacharacters and reserved names in path segments, query, field and trailer values, field names resembling the framing names, coding / Connection / Trailer '
 	'sets with one invalid member; the request target of every composed request is read against the origin-form grammar (RFC 3986 pchar / query). '
+	'Wave-5 classes: REFUSED calls (closed file / closed BytesIO / not iterable / unencodable text as content through attribute, set, Body(), encode, write; invalid status, method, protocol, URI, field name, mapping; '
+	'prepare() with an unknown coding; a serialisation abandoned half way or broken by a piece that is not bytes) before the first use and between two uses of a message - compared with a fresh message built from the data read '
+	'BEFORE the call, and what is sent afterwards must be what was sent before, framing fields still true; a second message built from the parts of the first (constructor, attributes, Body(body), content object, Headers(headers), deepcopy, URI, request) '
+	'and modified, prepared, serialised - the first goes on like a fresh one; two messages from the same caller-owned argument objects (dict / OrderedDict / Headers / pairs; list / BytesIO / file / dict / deque) - arguments unchanged, second like fresh (kind args); '
+	'content as subclasses of bytes / str / list / tuple / BytesIO, dict, OrderedDict, dict views, deque, set, object with __iter__, iter(list), generator expression / function, r+b file, SpooledTemporaryFile; field values as bytearray / memoryview, names as bytes, '
+	'collections as OrderedDict / Headers; status / method as bytes; target as str / bytes / URI / tuple / dict, query as list / tuple / iterator / generator / map / chain; the charset of the body through Body(mimetype=str / bytes / quoted), body.encoding, body.mimetype '
+	'(UTF-16 / -LE / -BE, UTF-32, ISO8859-1, cp1252, koi8-r, shift_jis, utf-7, utf-8-sig, iso8859-15, cp437) before and after the content, with text, text pieces and mixed pieces; content, charset, coding, framing, trailer, announced type, status / method in every order; '
+	'pieces unsorted / duplicated / reverse-sorted; pieces found by search whose deflate stream ends in HT LF VT FF CR SP NUL or contains CR LF, whose CRC-32 does, pieces beginning / ending in those octets, text whose UTF-16 / UTF-32 octets do; '
+	'lengths 2^k, 2^k +- 1 (k = 9 .. 16) as size of a file, of a buffer, as sum of pieces, as one chunk. '
 	'non-trivial = distinct (kind, framing, source type, dropped?, coding, #ops) classes')
 EXHAUSTIVE = {'quick': False, 'thorough': False}
 TRUSTED = [
@@ -256,7 +265,7 @@ def observe(c):
 		keep = []
 		try:
 			with cr.Clock():
-				b = Body(cr._content(c['body'], keep))
+				b = Body(_content5(c['body'], keep))
 				for name, value in c.get('trailer', []):
 					b.trailer[name] = bytes.fromhex(value)
 				if c.get('coding'):
@@ -265,7 +274,7 @@ def observe(c):
 				init = {'chunked': bool(b.chunked), 'codec': cr.codec_id(b), 'ctype': bytes(b.mimetype).hex(), 'trailer': cr.hdr_items(b.trailer), 'ce': []}
 				n = len(b)
 				out = b''.join(b)
-				o = {'init': init, 'len': n, 'out': out.hex(), 'fd': cr.fd_obs(b),
+				o = {'init': init, 'len': n, 'out': out.hex(), 'fd': _fd_obs(b),
 					'tables': {'comp': [[a[0], a[1].hex(), v.hex()] for a, v in cr.REC.comp.items()], 'lsplit': []}}
 		finally:
 			for fd, name in keep:
@@ -275,6 +284,8 @@ def observe(c):
 		return o
 	if k == 'seq':
 		return run_seq(c)
+	if k == 'args':
+		return run_args(c)
 	return cr.run_ops(c)
 
 
@@ -294,6 +305,8 @@ def coq_case(c, o):
 		return 'CBody %s %s %s %s %s' % (cr.coq_tables(o), cr.coq_body(c, o['init']), N(o['len']), X(bytes.fromhex(o['out'])), cr.coq_fd(o['fd']))
 	if k == 'seq':
 		return coq_seq(c, o)
+	if k == 'args':
+		return None   # oracle-only: three objects and their argument objects, nothing the model says anything about
 	return cr.coq_case(c, o)
 
 
@@ -341,6 +354,8 @@ def oracle(c, o):
 		return None
 	if k == 'seq':
 		return oracle_seq(c, o)
+	if k == 'args':
+		return oracle_args(c, o)
 	if k == 'body':
 		content = cr.body_content(c['body'])
 		if o['len'] != len(content):
@@ -431,9 +446,11 @@ def nontrivial(c, o):
 	if k == 'hcompose':
 		return (k, len(c['hdrs']))
 	if k == 'body':
-		return (k, c['body']['t'], c['chunked'], c['coding'], min(len(cr.body_content(c['body'])) // 4096, 3))
+		return (k, c['body']['t'], c['body'].get('py'), c['chunked'], c['coding'], min(len(cr.body_content(c['body'])) // 4096, 3))
+	if k == 'args':
+		return (k, c['kind'], c['htype'], c['body']['t'], c['body'].get('py'), c['chunked'])
 	if k == 'seq':
-		return (k, c['base']['k'], c['base']['body']['t'], tuple(tuple(mu[0] + ':' + str(mu[-1]) if mu[0] in ('body', 'status', 'method', 'rmethod', 'te', 'proto', 'obs') else mu[0] + ':' + mu[1] if mu[0] in ('hvia', 'hrm') else mu[0] for mu in seg['mut']) for seg in c['segs']),
+		return (k, c['base']['k'], c['base']['body']['t'], tuple(tuple(mu[0] + ':' + str(mu[-1]) if mu[0] in ('body', 'status', 'method', 'rmethod', 'te', 'proto', 'obs', 'refuse', 'charset', 'target') else mu[0] + ':' + mu[1] + ':' + mu[2] if mu[0] == 'alias' else mu[0] + ':' + mu[1] if mu[0] in ('hvia', 'hrm') else mu[0] for mu in seg['mut']) for seg in c['segs']),
 			tuple(len(seg['ops']) for seg in c['segs']))
 	if 'ops' not in o:
 		return None
@@ -515,6 +532,10 @@ def sym_mut(st, mu):
 		st['body'] = dict(mu[1])
 		st['content'] = cr.body_content(mu[1])
 		st['attached'] = True
+		if mu[2] == 'attr-then-charset' and mu[1]['t'] == 'text':
+			# text is turned into octets when it is assigned, in the charset the body has THEN (UTF-8 here); the charset named afterwards describes them wrongly, but framing is about octets
+			st['content'] = cr.body_content(dict(mu[1], charset=None))
+			st['body'] = {'t': 'bytes', 'items': [st['content'].hex()]}
 		if mu[2] == 'iterencode':
 			# Body.iterencode hands the pieces to the codec of the body's media type: a generator of encoded pieces
 			st['body'] = {'t': 'gen', 'items': [x.hex() for x in cr.body_items(mu[1])], 'strs': [False] * len(mu[1]['items'])}
@@ -547,7 +568,16 @@ def sym_mut(st, mu):
 			st['ce'] = st['te'] = None
 		else:
 			sym_hdr(st, mu[2], None)
-	# 'obs' (a read-only observer): nothing changes
+	elif t == 'charset':
+		# the charset of the body changes: octets that exist already stay as they are, TEXT pieces of a list / tuple / generator go out in the new charset
+		b = st['body']
+		if b['t'] == 'text':
+			st['body'] = {'t': 'bytes', 'items': [st['content'].hex()]}
+		elif any(b.get('strs') or []):
+			b['charset'] = mu[1]
+			st['content'] = cr.body_content(b)
+	# 'obs' (a read-only observer), 'refuse' (a call the library refuses with an exception), 'alias' (another object built from the parts of this one and
+	# modified), 'target' (the request target in another argument type): nothing changes for the content
 
 
 def sym_prepare(st):
@@ -565,13 +595,24 @@ def _snap_body(body, st):
 	fd = body.fd
 	if isinstance(fd, _io.BytesIO):
 		return {'t': 'bytesio', 'items': [fd.getvalue().hex()], 'pos': fd.tell()}
+	py = st['body'].get('py')
+	if py in REITERABLE and not isinstance(fd, (list, tuple, _io.BytesIO)) and not hasattr(fd, 'read'):
+		# a re-iterable container of the caller (dict, OrderedDict, dict view, deque, set, an object with __iter__): read through iteration, rebuilt as the same kind
+		pieces = list(fd)
+		return {'t': 'list', 'py': py, 'items': [(x if isinstance(x, bytes) else x.encode('utf-8')).hex() for x in pieces], 'strs': [not isinstance(x, bytes) for x in pieces]}
 	if isinstance(fd, (list, tuple)):
-		return {'t': 'list' if isinstance(fd, list) else 'tuple', 'items': [(x if isinstance(x, bytes) else x.encode('utf-8')).hex() for x in fd], 'strs': [not isinstance(x, bytes) for x in fd]}
+		snap = {'t': 'list' if isinstance(fd, list) else 'tuple', 'items': [(x if isinstance(x, bytes) else x.encode('utf-8')).hex() for x in fd], 'strs': [not isinstance(x, bytes) for x in fd]}
+		if py in ('list-sub', 'tuple-sub') and type(fd) not in (list, tuple):
+			snap['py'] = py
+		return snap
 	if isinstance(fd, GeneratorType) or type(fd) is type(iter([])):
 		# a generator cannot be looked into: it is the one the harness made from the items of the last body assignment, not yet run
 		if st['body']['t'] != 'gen':
 			raise ValueError('unexpected generator source')
-		return {'t': 'gen', 'items': list(st['body']['items']), 'strs': list(st['body'].get('strs') or [])}
+		snap = {'t': 'gen', 'items': list(st['body']['items']), 'strs': list(st['body'].get('strs') or [])}
+		if py:
+			snap['py'] = py
+		return snap
 	if hasattr(fd, 'fileno'):
 		pos = fd.tell()
 		fd.seek(0)
@@ -586,6 +627,14 @@ def _snapshot(m, c, st, uri):
 	ce = m.body.content_encoding
 	snap = {'k': st['k'], 'version': [m.protocol.major, m.protocol.minor], 'hdrs': cr.hdr_items(m.headers), 'body': _snap_body(m.body, st), 'chunked': bool(m.body.chunked),
 		'coding': bytes(ce).hex() if ce else None, 'ctype': bytes(m.body.mimetype).hex(), 'trailer': cr.hdr_items(m.body.trailer)}
+	if any(snap['body'].get('strs') or []):
+		# text pieces go out in the charset the body has when they are sent (the model gets the octets)
+		try:
+			import codecs
+			if codecs.lookup(m.body.encoding).name != 'utf-8':
+				snap['body']['charset'] = m.body.encoding
+		except LookupError:
+			pass
 	if st['k'] == 'req':
 		snap['method'] = bytes(m.method).decode('latin-1')
 		snap['uri'] = dict(uri)
@@ -621,7 +670,7 @@ def _fresh(snap, keep):
 		c = ComposedResponse(m, Request(snap['rmethod'], '/'))
 	for name, value in snap['hdrs']:
 		m.headers[bytes.fromhex(name).decode('latin-1')] = bytes.fromhex(value)
-	m.body = cr._content(snap['body'], keep)
+	m.body = _content5(snap['body'], keep)
 	m.body.mimetype = bytes.fromhex(snap['ctype'])
 	if snap['coding']:
 		m.body.content_encoding = bytes.fromhex(snap['coding'])
@@ -634,7 +683,7 @@ def _fresh(snap, keep):
 def _init_obs(m, c, k):
 	from httoop.header import Headers
 	init = {'hdrs': cr.hdr_items(m.headers), 'chunked': bool(m.body.chunked), 'ctype': bytes(m.body.mimetype).hex(),
-		'codec': cr.codec_id(m.body), 'trailer': cr.hdr_items(m.body.trailer), 'fd': cr.fd_obs(m.body)}
+		'codec': cr.codec_id(m.body), 'trailer': cr.hdr_items(m.body.trailer), 'fd': _fd_obs(m.body)}
 	if k == 'req':
 		init['target'] = cr.request_target(m).hex()
 		init['host'] = bytes(Headers.formatvalue(m.uri.host)).hex() if m.uri.host else None
@@ -657,13 +706,13 @@ def _steps(m, c, ops, clock):
 					c.prepare()
 				finally:
 					clock.now = cr.COMPOSE_CLOCK
-				steps.append({'state': {'hdrs': cr.hdr_items(m.headers), 'fd': cr.fd_obs(m.body), 'chunked': bool(m.body.chunked)}, 'now': cr.date_of(float(op[1])).hex()})
+				steps.append({'state': {'hdrs': cr.hdr_items(m.headers), 'fd': _fd_obs(m.body), 'chunked': bool(m.body.chunked)}, 'now': cr.date_of(float(op[1])).hex()})
 			elif op[0] == 'ch':
 				c.chunked = bool(op[1])
-				steps.append({'state': {'hdrs': cr.hdr_items(m.headers), 'fd': cr.fd_obs(m.body), 'chunked': bool(m.body.chunked)}})
+				steps.append({'state': {'hdrs': cr.hdr_items(m.headers), 'fd': _fd_obs(m.body), 'chunked': bool(m.body.chunked)}})
 			elif op[0] == 'c':
 				out = b''.join(c)
-				steps.append({'out': out.hex(), 'fd': cr.fd_obs(m.body)})
+				steps.append({'out': out.hex(), 'fd': _fd_obs(m.body)})
 			else:
 				raise ValueError(op)
 		except Exception as exc:
@@ -672,7 +721,7 @@ def _steps(m, c, ops, clock):
 	return steps
 
 
-def _apply(m, c, mu, uri, keep, others):
+def _apply(m, c, mu, uri, keep, others, so=None):
 	from httoop import Request, Response
 	from httoop.messages.body import Body
 	from httoop.semantic.request import ComposedRequest
@@ -680,8 +729,10 @@ def _apply(m, c, mu, uri, keep, others):
 	from httoop.status import Status
 	t = mu[0]
 	if t == 'body':
-		obj = cr._content(mu[1], keep)
-		if mu[2] == 'attr':
+		obj = _content5(mu[1], keep)
+		if mu[2] in BODY_HOWS5:
+			_body_how5(m, mu[1], mu[2], obj)
+		elif mu[2] == 'attr':
 			m.body = obj
 		elif mu[2] == 'set':
 			m.body.set(obj)
@@ -728,6 +779,19 @@ def _apply(m, c, mu, uri, keep, others):
 		_hrm(m, mu[1], mu[2])
 	elif t == 'obs':
 		_observe(m, c, mu[1], mu[2])
+	elif t == 'refuse':
+		so.setdefault('refused', []).append([mu[1], _refuse(m, c, mu[1])])
+	elif t == 'alias':
+		_alias(m, c, mu[1], mu[2], so)
+	elif t == 'charset':
+		if mu[2] == 'encoding':
+			m.body.encoding = mu[1]
+		elif mu[2] == 'mimetype-bytes':
+			m.body.mimetype = b'text/plain; charset=' + mu[1].encode('ascii')
+		else:
+			m.body.mimetype = 'text/plain; charset=%s' % mu[1]
+	elif t == 'target':
+		_target5(m, mu[1], mu[2], uri)
 	elif t == 'status':
 		code, reason, how = mu[1], mu[2], mu[3]
 		if how == 'int':
@@ -738,11 +802,15 @@ def _apply(m, c, mu, uri, keep, others):
 			m.status.code = code
 		elif how == 'str':
 			m.status = '%d %s' % (code, reason or 'R')
+		elif how == 'bytes':
+			m.status = b'%d %s' % (code, (reason or 'R').encode('ascii'))
 		else:
 			m.status = Status(code)
 	elif t == 'method':
 		if mu[2] == 'attr':
 			m.method = mu[1]
+		elif mu[2] == 'attr-bytes':
+			m.method = mu[1].encode('ascii')
 		elif mu[2] == 'set':
 			m.method.set(mu[1])
 		else:
@@ -819,15 +887,18 @@ def run_seq(case):
 	try:
 		with cr.Clock() as clock:
 			m, c = cr.build(dict(base, ops=[]), keep)
+			c = _knobs(case, m, c)
 			for seg in case['segs']:
 				so = {'others': []}
 				obs['segs'].append(so)
 				snap0 = None
 				try:
 					for mu in seg['mut']:
-						if mu[0] == 'obs' and snap0 is None:
-							snap0 = _snapshot(m, c, st, uri)   # the data BEFORE anything was observed: what the fresh, never observed message is built from
-						_apply(m, c, mu, uri, keep, so['others'])
+						if mu[0] in ('obs', 'refuse', 'alias') and snap0 is None:
+							# the data BEFORE anything was observed (before the refused call, before a second object was built from the parts of this one):
+							# what the fresh message - never observed, never subjected to the failed call, never used as a source of parts - is built from
+							snap0 = _snapshot(m, c, st, uri)
+						_apply(m, c, mu, uri, keep, so['others'], so)
 						sym_mut(st, mu)
 				except Exception as exc:
 					so['mut_raised'] = '%s: %s (%r)' % (type(exc).__name__, str(exc)[:120], mu)
@@ -849,14 +920,18 @@ def run_seq(case):
 						fd.seek(0)
 						so['final_content'] = fd.read().hex()
 						fd.seek(pos)
+					elif st['body'].get('py') in REITERABLE and hasattr(fd, '__iter__') and not hasattr(fd, '__next__'):
+						# a re-iterable container of the caller (dict, deque, ...): it still holds the pieces, in their order
+						so['final_content'] = b''.join(x if isinstance(x, bytes) else x.encode('utf-8') for x in fd).hex()
 					else:
 						so['final_content'] = None
 				except Exception:
 					so['final_content'] = None
-				so['final_fd'] = cr.fd_obs(m.body)
+				so['final_fd'] = _fd_obs(m.body)
 				# the same data in a fresh object, the same operations
 				try:
 					m2, c2 = _fresh(snap0 or so['snap'], keep)
+					c2 = _knobs(case, m2, c2)
 					so['fresh'] = _steps(m2, c2, seg['ops'], clock)
 				except Exception as exc:
 					so['fresh_raised'] = '%s: %s' % (type(exc).__name__, str(exc)[:120])
@@ -958,6 +1033,8 @@ def oracle_seq(c, o):
 		return None
 	st = sym_init(base)
 	k = base['k']
+	prepared = False
+	outs, states = [], []
 	for n, (seg, so) in enumerate(zip(c['segs'], o['segs'])):
 		if 'mut_raised' in so:
 			return 'segment %d: modifying the message through its public API raised %s' % (n, so['mut_raised'])
@@ -975,14 +1052,23 @@ def oracle_seq(c, o):
 				if m2['payload'] != want2:
 					return 'segment %d: a second message sharing the %s carries %d octets, the content has %d' % (n, spec['share'], len(m2['payload']), len(want2))
 			sym_mut(st, mu)
+		for name, raised in so.get('refused', []):
+			if raised is None:
+				return 'segment %d: %s was accepted (%s): the library has to refuse it with an exception and leave the message as it was' % (n, name, REFUSALS[name][1])
+		if so.get('alias_failed'):
+			return 'segment %d: %s' % (n, so['alias_failed'])
 		live = so['live']
 		observed = any(mu[0] == 'obs' for mu in seg['mut'])
 		if 'fresh_raised' in so:
 			return 'harness exception: building the fresh message: %s' % so['fresh_raised']
 		fresh = so['fresh']
 		st['dropped_now'] = False
-		prepared = False
-		outs, states = [], []
+		# Between two uses only REFUSED calls were made (each raised), or other objects were built from the parts of this one: the message is what it
+		# was - still prepared, and what it is serialised to now has to be what it was serialised to before.  (Not for responses to HEAD: D45.)
+		carry = bool(seg['mut']) and all(mu[0] in ('refuse', 'alias') for mu in seg['mut']) and not (k == 'resp' and st.get('rmethod') == 'HEAD')
+		if not carry:
+			prepared = False
+			outs, states = [], []
 		for op, a, b in zip(seg['ops'], live, fresh):
 			what = {'p': 'prepare()', 'c': 'serialising', 'ch': 'the chunked setter'}[op[0]]
 			if ('raised' in a) != ('raised' in b) or a.get('raised') != b.get('raised'):
@@ -1006,9 +1092,13 @@ def oracle_seq(c, o):
 				if len(set(states)) > 1:
 					return 'segment %d: preparing the message again changes the header fields (beyond the Date value)' % n
 			elif op[0] == 'c':
+				differs = None
 				if a['out'] != b['out']:
-					return 'segment %d: the message used before serialises to other octets than a fresh message with the same data: %r versus %r' % (n,
+					differs = 'segment %d: the message used before serialises to other octets than a fresh message with the same data: %r versus %r' % (n,
 						bytes.fromhex(a['out'])[:300], bytes.fromhex(b['out'])[:300])
+					if not (carry and prepared):
+						return differs
+					# (after nothing but refused calls the message is still the prepared message it was: what the property says about its octets comes first)
 				if not prepared:
 					continue
 				data = bytes.fromhex(a['out'])
@@ -1027,13 +1117,20 @@ def oracle_seq(c, o):
 				want = b'' if rfc_bodiless(st) else st['content']
 				if payload != want:
 					return 'segment %d: framed payload (%d octets) differs from the content the message holds (%d octets)' % (n, len(payload), len(want))
+				if c.get('useragent') and (b'User-Agent', c['useragent'].encode('ascii')) not in m['fields']:
+					return 'segment %d: the User-Agent configured on the composer class (%r) is not the one sent' % (n, c['useragent'])
 				outs.append(cr.mask_date(data))
 				if len(set(outs)) > 1:
 					return 'segment %d: composing the prepared message again gives different octets (beyond the Date value)' % n
+				if differs:
+					return differs
 		if len(live) < len(seg['ops']):
 			return 'harness exception: operations missing'
 		if so.get('final_content') is not None:
-			if bytes.fromhex(so['final_content']) != st['content']:
+			held = st['content']
+			if st['body'].get('charset') and st['body']['t'] in ('list', 'tuple', 'gen') and any(st['body'].get('strs') or []):
+				held = cr.body_content(dict(st['body'], charset=None))   # (text pieces of a list stay text: the harness reads them back as UTF-8, whatever the charset of the body)
+			if bytes.fromhex(so['final_content']) != held:
 				return 'segment %d: the body source no longer holds the content after the operations' % n
 			if not st['dropped_now'] and so['init']['fd'][0] in ('bytesio', 'file') and so.get('final_fd') != so['init']['fd']:
 				return 'segment %d: the position of the body source is not restored: %r became %r' % (n, so['init']['fd'], so.get('final_fd'))
@@ -1377,6 +1474,7 @@ def gen_classes(rng, tier):
 	for q in ([], [['', '']], [['', 'v']], [['k', '']], [['&', '=']], [[' ', ' ']]):
 		cases.append(_msg('req', hello, query=q))
 	cases.extend(gen_classes4(rng, tier))
+	cases.extend(gen_classes5(rng, tier))
 	return cases
 
 
@@ -1438,6 +1536,8 @@ def _hvia(m, way, name, value):
 			h.set_element(name, main.strip(), pairs)
 		else:
 			h.set_element(name, main.strip())
+	elif way in HVIA_WAYS5:
+		_hvia5(m, way, name, value)
 	else:
 		raise ValueError(way)
 
@@ -1747,3 +1847,920 @@ def gen_classes4(rng, tier):
 			for kind in ('resp', 'req'):
 				cases.append(_one(kind, [['hset', name, v.encode('latin-1').hex()]], chunked=(i % 2 == 0), ops=four, **({'trailer': [['X-T', b'tv'.hex()]]} if name == 'Trailer' else {})))
 	return cases
+
+
+# ================================================================ the classes of the fifth wave (DESIGN.md section 8, classes 10 - 17)
+# (10) aliasing.  A second message B is built from the parts of the first (constructor arguments, attribute assignment, Body(A.body), A's content object,
+#      Headers(A.headers), deepcopy, the URI, the request of a response), then B is modified through every public way, prepared and serialised: A must go on
+#      exactly like a message built from the data read from A BEFORE B existed ('alias' modification of a seq case).  Two messages built one after the other
+#      from the SAME caller-owned argument objects (a dict / OrderedDict / Headers / list of pairs, a list / BytesIO / file / dict ...): the argument objects
+#      are unchanged after the first message was modified, prepared and serialised, and the second message serialises like a fresh one (kind 'args').
+# (11) argument types.  The content as bytes / bytearray / str and subclasses of bytes, str, list, tuple, BytesIO; dict, OrderedDict, dict views, deque,
+#      set, an object with __iter__ (re-iterable); iter(list), generator expression, generator function (one-shot); real files opened r+b, SpooledTemporaryFile;
+#      header values as bytearray / memoryview, names as bytes, collections as OrderedDict / Headers / dict with bytes keys; status as bytes;
+#      method as bytes; the request target as str / bytes / URI / tuple / dict, the query as list / tuple / iterator / generator / map / chain / list of lists.
+#      The payload must be the pieces in iteration order (dict insertion order), and the octets those of a fresh message built the canonical way.
+# (12) refused operations.  A call the library refuses with an exception (closed file, closed BytesIO, content that is not iterable, text the charset of the
+#      body cannot encode, status / method / protocol / URI / field name that is not one, a mapping that is none, prepare() with an unknown coding, a
+#      serialisation that is abandoned half way or breaks on a piece that is not bytes) - before the first use and between two uses, for every kind of body
+#      source and both framings.  The exception is handled (swallowed); the message must go on like a message on which the call was never made (fresh
+#      message from the data read BEFORE the call), and - nothing having changed - what it is serialised to afterwards must be what it was serialised
+#      to before, with the framing fields still telling the truth.
+# (13) configuration knobs: the charset of the body selected through Body(content, mimetype=...) (str / bytes / quoted), body.encoding, body.mimetype - UTF-16,
+#      UTF-16LE/BE, UTF-32, ISO8859-1, cp1252, koi8-r, shift_jis, utf-7, utf-8-sig - with non-ASCII text as str, as text pieces and mixed with octet pieces;
+#      ComposedRequest.USER_AGENT on a subclass.
+# (14) order: pieces of list / tuple / generator / deque / dict bodies unsorted, with duplicates, reverse-sorted, with empty pieces in between: the payload (and
+#      the chunk sequence) is the pieces in the caller's order.  (The order of header FIELDS never reaches the wire: bytes(Headers) sorts them.)
+# (15) order of API calls: content, charset, content coding, framing (four ways), trailer, announced Content-Type, status / method - in every order.
+#      (Responses to conditional range requests are outside the composer model and the subject of C19 / C20.)
+# (16) value-dependent branches: hundreds of cheap multi-piece contents found by direct search - pieces whose deflate stream ends in a white space octet
+#      (zlib.adler32(piece) & 0xff in HT LF VT FF CR SP) or NUL, whose gzip member / CRC contains CR LF, pieces that begin / end with white space, NUL, CR LF,
+#      text whose UTF-16 / UTF-32 form contains or ends in 0x0A / 0x0D / 0x20 / 0x00 octets.
+# (17) lengths 2^k and 2^k +- 1 for k = 9 .. 16 as content of every kind of source, as a single piece, as file content behind a non-zero position.
+
+import collections as _collections
+import itertools as _itertools
+import tempfile as _tempfile
+import zlib as _zlib
+
+REITERABLE = ('dict', 'odict', 'dictkeys', 'dictvalues', 'deque', 'set1', 'frozenset1', 'reiter', 'list-sub', 'tuple-sub')
+ONESHOT = ('iterlist', 'genexpr', 'genfunc', 'zipgen')
+# Kept out (a finding of the clean tree against "whatever kind of object supplied the body", reported): one-shot iterators that are neither a generator nor a
+# list iterator - iter(tuple), map(...), itertools.chain(...), filter(...), reversed(list), iter(dict), zip(...) - are accepted by Body.set but Body does not
+# know them as generators: the first walk (len(body) in prepare(), or bool(body)) exhausts them and nothing is kept.  Response + body map(bytes, [b'ab', b'cd'])
+# -> 'Content-Length: 4' followed by no octets; with chunked framing a complete but EMPTY chunked body.  memoryview content (and bytearray / memoryview PIECES) is
+# accepted at assignment and refused only by prepare() / len() (TypeError); io.StringIO / io.BufferedReader / io.TextIOWrapper content (the class docstring
+# names StringIO) is accepted and prepare() raises io.UnsupportedOperation from fileno().  Refusals, no octets: observations, not generated either.
+
+
+class _ReIter(object):
+	def __init__(self, pieces):
+		self.pieces = pieces
+
+	def __iter__(self):
+		return iter(list(self.pieces))
+
+
+class _ListSub(list):
+	pass
+
+
+class _TupleSub(tuple):
+	pass
+
+
+class _BytesSub(bytes):
+	pass
+
+
+class _StrSub(str):
+	pass
+
+
+class _BytesIOSub(_io.BytesIO):
+	pass
+
+
+def _genfunc(objs):
+	for x in objs:
+		yield x
+
+
+def _content5(body, keep):
+	"""composer_rec._content plus the Python variants of a source ('py'); 't' stays the kind of source the model and the bookkeeping know"""
+	py = body.get('py')
+	if not py:
+		return cr._content(body, keep)
+	items = [bytes.fromhex(x) for x in body.get('items', [])]
+	strs = body.get('strs') or [False] * len(items)
+	objs = [(x.decode('utf-8') if s else x) for x, s in zip(items, strs)]
+	data = b''.join(items)
+	pos = body.get('pos', 0)
+	if py == 'bytes-sub':
+		return _BytesSub(data)
+	if py == 'str-sub':
+		return _StrSub(data.decode('utf-8'))
+	if py == 'dict':
+		return dict((x, i) for i, x in enumerate(objs))
+	if py == 'odict':
+		return _collections.OrderedDict((x, i) for i, x in enumerate(objs))
+	if py == 'dictkeys':
+		return dict((x, i) for i, x in enumerate(objs)).keys()
+	if py == 'dictvalues':
+		return dict((i, x) for i, x in enumerate(objs)).values()
+	if py == 'deque':
+		return _collections.deque(objs)
+	if py == 'set1':
+		return set(objs)
+	if py == 'frozenset1':
+		return frozenset(objs)
+	if py == 'reiter':
+		return _ReIter(objs)
+	if py == 'list-sub':
+		return _ListSub(objs)
+	if py == 'tuple-sub':
+		return _TupleSub(objs)
+	if py == 'iterlist':
+		return iter(objs)
+	if py == 'genexpr':
+		return (x for x in objs)
+	if py == 'genfunc':
+		return _genfunc(objs)
+	if py == 'zipgen':
+		return (x for x, _ in zip(objs, range(len(objs))))
+	if py == 'bytesio-sub':
+		fd = _BytesIOSub(data)
+		fd.seek(pos)
+		return fd
+	if py == 'file-rw':
+		tmp = _tempfile.NamedTemporaryFile(prefix='verif-c05-', delete=False)
+		tmp.write(data)
+		tmp.close()
+		fd = open(tmp.name, 'r+b')
+		fd.seek(pos)
+		keep.append((fd, tmp.name))
+		return fd
+	if py == 'spooled':
+		fd = _tempfile.SpooledTemporaryFile(max_size=1 << 22)
+		fd.write(data)
+		fd.seek(pos)
+		tmp = _tempfile.NamedTemporaryFile(prefix='verif-c05-', delete=False)   # (only so that the clean-up has a name to remove)
+		tmp.close()
+		keep.append((fd, tmp.name))
+		return fd
+	raise ValueError(py)
+
+
+def _fd_obs(body):
+	"""composer_rec.fd_obs; a re-iterable container that is neither list nor tuple counts as what it is for the composer: a list of pieces"""
+	o = cr.fd_obs(body)
+	fd = body.fd
+	if o[0].startswith('other:') and hasattr(fd, '__iter__') and not hasattr(fd, 'read') and not hasattr(fd, '__next__'):
+		return ['list']
+	return o
+
+
+BODY_HOWS5 = ('enc-then-attr', 'mime-then-attr', 'mimeb-then-set', 'attr-then-charset', 'ctor-mime-bytes', 'ctor-mime-quoted', 'ctor-mime-html')
+
+
+def _body_how5(m, spec, how, obj):
+	"""the charset of the body selected through every knob, before or after the content is handed over"""
+	from httoop.messages.body import Body
+	cs = spec['charset']
+	if how == 'enc-then-attr':
+		m.body.encoding = cs
+		m.body = obj
+	elif how == 'mime-then-attr':
+		m.body.mimetype = 'text/plain; charset=%s' % cs
+		m.body = obj
+	elif how == 'mimeb-then-set':
+		m.body.mimetype = b'text/plain; charset=' + cs.encode('ascii')
+		m.body.set(obj)
+	elif how == 'attr-then-charset':
+		m.body = obj
+		m.body.encoding = cs
+	elif how == 'ctor-mime-bytes':
+		m.body = Body(obj, mimetype=b'text/plain; charset=' + cs.encode('ascii'))
+	elif how == 'ctor-mime-quoted':
+		m.body = Body(obj, mimetype='text/plain; charset="%s"' % cs)
+	elif how == 'ctor-mime-html':
+		m.body = Body(obj, mimetype='text/html;charset=%s' % cs.upper())
+	else:
+		raise ValueError(how)
+
+
+HVIA_WAYS5 = ['item-bytearray', 'item-memoryview', 'name-bytes', 'update-odict', 'update-headers', 'assign-odict', 'assign-headers', 'assign-bytes-keys', 'setdefault-name-bytes']
+
+
+def _hvia5(m, way, name, value):
+	from httoop.header import Headers
+	h = m.headers
+	if way == 'item-bytearray':
+		h[name] = bytearray(value)
+	elif way == 'item-memoryview':
+		h[name] = memoryview(value)
+	elif way == 'name-bytes':
+		h[name.encode('ascii')] = value
+	elif way == 'update-odict':
+		h.update(_collections.OrderedDict([(name, value)]))
+	elif way == 'update-headers':
+		h.update(Headers({name: value}))
+	elif way == 'setdefault-name-bytes':
+		h.pop(name, None)
+		h.setdefault(name.encode('ascii'), value)
+	elif way in ('assign-odict', 'assign-headers', 'assign-bytes-keys'):
+		pairs = [(k, bytes(v)) for k, v in dict.items(h) if k.lower() != name.lower()] + [(name, value)]
+		if way == 'assign-odict':
+			m.headers = _collections.OrderedDict(pairs)
+		elif way == 'assign-headers':
+			m.headers = Headers(dict(pairs))
+		else:
+			m.headers = dict((k.encode('ascii'), v) for k, v in pairs)
+	else:
+		raise ValueError(way)
+
+
+def _target5(m, spec, how, uri):
+	"""the request target / the query handed over in another argument type (unreserved characters only: the text form is unambiguous)"""
+	from httoop.uri import URI
+	pairs = [tuple(p) for p in spec['query']]
+	if how.startswith('q-'):
+		v = {'q-list': lambda: list(pairs), 'q-tuple': lambda: tuple(pairs), 'q-iter': lambda: iter(pairs), 'q-gen': lambda: (p for p in pairs), 'q-map': lambda: map(tuple, pairs),
+			'q-chain': lambda: _itertools.chain(pairs[:1], pairs[1:]), 'q-lists': lambda: [list(p) for p in pairs]}[how]()
+		m.uri.query = v
+		uri['query'] = [list(p) for p in spec['query']]
+		return
+	text = 'http://%s%s?%s' % (spec['host'], '/'.join(spec['segs']), '&'.join('%s=%s' % p for p in pairs))
+	if how == 'str':
+		m.uri = text
+	elif how == 'bytes':
+		m.uri = text.encode('ascii')
+	elif how == 'uriobj':
+		m.uri = URI(text)
+	elif how == 'tuple':
+		m.uri = URI(text).tuple
+	elif how == 'dict':
+		m.uri = URI(text).dict
+	else:
+		raise ValueError(how)
+	uri.update(segs=list(spec['segs']), query=[list(p) for p in spec['query']], host=spec['host'], scheme='http', port=None)
+
+
+# ---------------------------------------------------------------- (12) calls the library has to refuse
+class _Marker(Exception):
+	"""raised by the harness itself at the end of an operation that is abandoned rather than refused, or that does not apply to this kind of source"""
+
+
+def _closed_file():
+	f = _tempfile.TemporaryFile()
+	f.write(b'gone')
+	f.close()
+	return f
+
+
+def _closed_bytesio():
+	b = _io.BytesIO(b'gone')
+	b.close()
+	return b
+
+
+class _StrOnly(object):
+	def __str__(self):
+		return 'content'
+
+	def __bytes__(self):
+		return b'content'
+
+
+def _unencodable(m):
+	"""text the charset of the body cannot encode: U+20AC for the single-octet Western charsets, a lone surrogate for everything else"""
+	import codecs
+	try:
+		name = codecs.lookup(m.body.encoding).name
+	except LookupError:
+		name = ''
+	return '\u20ac 5' if name in ('iso8859-1', 'ascii', 'koi8-r', 'iso8859-2') else 'a\ud800b'
+
+
+def _r_write(value):
+	def f(m, c):
+		if not hasattr(m.body.fd, 'write'):
+			raise _Marker('no file interface')   # (Body.write on a list / generator source is a silent no-op)
+		m.body.write(value)
+	return f
+
+
+def _r_prepare_with(name):
+	def f(m, c):
+		old = m.headers.getbytes(name)
+		m.headers[name] = b'x-unknown'
+		try:
+			c.prepare()
+		finally:
+			if old is None:
+				m.headers.pop(name, None)
+			else:
+				m.headers[name] = old
+	return f
+
+
+def _r_abandon(n):
+	def f(m, c):
+		from types import GeneratorType
+		fd = m.body.fd
+		if n > 1 and (isinstance(fd, GeneratorType) or type(fd) is type(iter([]))):
+			raise _Marker('a generator that was run half way is gone: the caller\'s object, nothing the library could restore')
+		it = iter(c)
+		for _ in range(n):
+			next(it)
+		it.close()
+		raise _Marker('abandoned')
+	return f
+
+
+def _r_bad_piece(m, c):
+	fd = m.body.fd
+	if type(fd) is not list:
+		raise _Marker('not a list source')
+	fd.append(5)
+	try:
+		b''.join(c)
+	finally:
+		fd.pop()
+
+
+def _setbody(f):
+	return lambda m, c: setattr(m, 'body', f(m))
+
+
+def _body_ctor(f):
+	def g(m, c):
+		from httoop.messages.body import Body
+		m.body = Body(*f(m))
+	return g
+
+
+# name -> (applies to, why the call cannot be carried out, the call, directed only?)
+REFUSALS = {
+	'body = closed file': ('any', 'a closed file cannot be read', _setbody(lambda m: _closed_file()), False),
+	'body = closed BytesIO': ('any', 'a closed buffer cannot be read', _setbody(lambda m: _closed_bytesio()), False),
+	'body = 42': ('any', 'an integer is not content', _setbody(lambda m: 42), False),
+	'body = 1.5': ('any', 'a float is not content', _setbody(lambda m: 1.5), False),
+	'body = True': ('any', 'a bool is not content', _setbody(lambda m: True), False),
+	'body = object with __str__': ('any', 'an object that is neither text, octets, file nor iterable is not content', _setbody(lambda m: _StrOnly()), False),
+	'body = unencodable text': ('any', 'the charset of the body cannot encode the text', _setbody(_unencodable), False),
+	'body.set(closed file)': ('any', 'a closed file cannot be read', lambda m, c: m.body.set(_closed_file()), False),
+	'body.set(closed BytesIO)': ('any', 'a closed buffer cannot be read', lambda m, c: m.body.set(_closed_bytesio()), False),
+	'body.set(42)': ('any', 'an integer is not content', lambda m, c: m.body.set(42), False),
+	'body.set(unencodable text)': ('any', 'the charset of the body cannot encode the text', lambda m, c: m.body.set(_unencodable(m)), False),
+	'body = Body(42)': ('any', 'an integer is not content', _body_ctor(lambda m: (42,)), False),
+	'body = Body(closed BytesIO)': ('any', 'a closed buffer cannot be read', _body_ctor(lambda m: (_closed_bytesio(),)), False),
+	'body = Body(closed file)': ('any', 'a closed file cannot be read', _body_ctor(lambda m: (_closed_file(),)), False),
+	'body = Body(text, mimetype whose charset cannot encode it)': ('any', 'ISO-8859-1 cannot encode U+20AC', _body_ctor(lambda m: ('\u20ac 5', 'text/plain; charset=ISO-8859-1')), False),
+	'body.encode(unencodable text)': ('any', 'the charset of the body cannot encode the text', lambda m, c: m.body.encode(_unencodable(m)), False),
+	'body.encode(42)': ('any', 'an integer is not text', lambda m, c: m.body.encode(42), False),
+	'body.write(text)': ('any', 'a binary file does not take text', _r_write('text'), False),
+	'body.write(42)': ('any', 'a file does not take an integer', _r_write(42), False),
+	'serialisation with a piece that is not bytes': ('any', 'an integer piece cannot be sent', _r_bad_piece, False),
+	'serialisation abandoned after the header section': ('any', 'the consumer stopped reading', _r_abandon(1), False),
+	'serialisation abandoned after the first piece of the body': ('any', 'the consumer stopped reading', _r_abandon(2), False),
+	'prepare() with Transfer-Encoding: x-unknown': ('any', 'x-unknown is no transfer coding', _r_prepare_with('Transfer-Encoding'), True),
+	'prepare() with Content-Encoding: x-unknown': ('resp', 'x-unknown is no content coding', _r_prepare_with('Content-Encoding'), True),
+	'status = 99': ('resp', 'a status code has three digits', lambda m, c: setattr(m, 'status', 99), False),
+	'status = 1000': ('resp', 'a status code has three digits', lambda m, c: setattr(m, 'status', 1000), False),
+	'status = "abc"': ('resp', 'a status is a number and a reason', lambda m, c: setattr(m, 'status', 'abc'), False),
+	'status = b"20x OK"': ('resp', 'a status code is a number', lambda m, c: setattr(m, 'status', b'20x OK'), False),
+	'status = None': ('resp', 'None is no status', lambda m, c: setattr(m, 'status', None), False),
+	'status = (200,)': ('resp', 'a status tuple has two members', lambda m, c: setattr(m, 'status', (200,)), False),
+	'status.code = "x"': ('resp', 'a status code is a number', lambda m, c: setattr(m.status, 'code', 'x'), False),
+	'status.parse(b"20x OK")': ('resp', 'a status code is a number', lambda m, c: m.status.parse(b'20x OK'), False),
+	'method = "BAD METHOD"': ('req', 'a method is a token', lambda m, c: setattr(m, 'method', 'BAD METHOD'), False),
+	'method = ""': ('req', 'a method is a token', lambda m, c: setattr(m, 'method', ''), False),
+	'method = 42': ('req', 'a method is a token', lambda m, c: setattr(m, 'method', 42), False),
+	'method.parse(b"G T")': ('req', 'a method is a token', lambda m, c: m.method.parse(b'G T'), False),
+	'protocol = "HTTP/x.y"': ('any', 'a version is two numbers', lambda m, c: setattr(m, 'protocol', 'HTTP/x.y'), False),
+	'protocol = (1,)': ('any', 'a version is two numbers', lambda m, c: setattr(m, 'protocol', (1,)), False),
+	'protocol = 42': ('any', 'a version is two numbers', lambda m, c: setattr(m, 'protocol', 42), False),
+	'protocol.parse(b"HTTX/1.1")': ('any', 'the protocol name is HTTP', lambda m, c: m.protocol.parse(b'HTTX/1.1'), False),
+	'uri = "http://[::1/x"': ('req', 'an unterminated IP literal is no URI', lambda m, c: setattr(m, 'uri', 'http://[::1/x'), False),
+	'uri = 42': ('req', 'an integer is no URI', lambda m, c: setattr(m, 'uri', 42), False),
+	'uri.port = "x"': ('req', 'a port is a number', lambda m, c: setattr(m.uri, 'port', 'x'), False),
+	'uri.port = 99999': ('req', 'a port is below 65536', lambda m, c: setattr(m.uri, 'port', 99999), False),
+	'uri.parse(b"http://exa mple/ a")': ('req', 'a URI contains no space', lambda m, c: m.uri.parse(b'http://exa mple/ a'), False),
+	'uri.path = 42': ('req', 'an integer is no path', lambda m, c: setattr(m.uri, 'path', 42), False),
+	'uri.query = 42': ('req', 'an integer is no query', lambda m, c: setattr(m.uri, 'query', 42), False),
+	'uri.query = "a=b"': ('req', 'a query is a sequence of pairs', lambda m, c: setattr(m.uri, 'query', 'a=b'), False),
+	'headers.update(42)': ('any', 'an integer is no mapping', lambda m, c: m.headers.update(42), False),
+	'headers.update(list of pairs)': ('any', 'a list is no mapping', lambda m, c: m.headers.update([('X-A', '1'), ('b',)]), False),
+	'del headers[absent]': ('any', 'the field is not there', lambda m, c: m.headers.__delitem__('X-Absent'), False),
+	'headers.set_element(name, value, 42)': ('any', 'parameters are a mapping', lambda m, c: m.headers.set_element('Content-Type', 'text/plain', 42), False),
+	'headers["Bad Name"] = x': ('any', 'a field name is a token', lambda m, c: m.headers.__setitem__('Bad Name', 'x'), False),
+	'headers["Content-Length:"] = 3': ('any', 'a field name is a token', lambda m, c: m.headers.__setitem__('Content-Length:', '3'), False),
+	'headers.append("Transfer-Encoding\\r\\n", chunked)': ('any', 'a field name is a token', lambda m, c: m.headers.append('Transfer-Encoding\r\n', 'chunked'), False),
+	'headers.setdefault("Bad Name")': ('any', 'a field name is a token', lambda m, c: m.headers.setdefault('Bad Name', 'x'), False),
+	'headers.parse(b"Bad Name: x")': ('any', 'a field name is a token', lambda m, c: m.headers.parse(b'Bad Name: x'), False),
+	'headers.parse(b"no colon")': ('any', 'a field line has a colon', lambda m, c: m.headers.parse(b'no colon'), False),
+	'trailer["Bad Name"] = x': ('any', 'a field name is a token', lambda m, c: m.body.trailer.__setitem__('Bad Name', 'x'), False),
+}
+# Kept out (refused with an exception, but the object is NOT left as it was - observations on the clean tree, reported):
+#  * message.headers = <anything that is not a mapping> (42, a list of pairs): Headers.set clears the collection BEFORE update() raises AttributeError - the whole header
+#    section is gone, framing fields included; a prepared message then goes out without Content-Length / Transfer-Encoding in front of its body.  The same
+#    clear-then-update makes  message.headers = message.headers  empty the collection.
+#  * headers.parse(b'X-A: 1\r\nno colon'): the lines before the malformed one stay in the collection.
+#  * body.transfer_encoding = 'x-unknown' / body.content_encoding = 'x-unknown': InvalidHeader is raised after the value was stored in the Body's own header
+#    collection; for the transfer coding every later serialisation raises InvalidHeader (until prepare() overwrites it), for the content coding the attribute
+#    can no longer be read.  (The second happens inside the refused prepare() with Content-Encoding: x-unknown above too, which is why that one is always
+#    followed by a successful prepare().)
+#  * Body.set resets body.data (the decoded object kept by decode() / encode()) before it looks at the content: gone after a refused assignment; not part of what is sent.
+
+
+def _refuse(m, c, name):
+	try:
+		REFUSALS[name][2](m, c)
+	except Exception as exc:
+		return type(exc).__name__
+	return None
+
+
+# ---------------------------------------------------------------- (10) a second object built from the parts of the first
+ALIAS_WAYS = ['ctor', 'attrs', 'body-of-body', 'body-fd', 'headers-copy', 'deepcopy', 'uri-or-request', 'body-attr-of-body']
+
+
+def _alias(m, c, way, mode, so):
+	"""build B from the parts of A = m (way), modify B through every public way, prepare and serialise it (mode 'use'), or only modify it (mode 'touch').
+	Not touched: the content object itself and the trailer collection, which Body.set(Body) shares by design resp. as found (reported)."""
+	from httoop import Request, Response
+	from httoop.header import Headers
+	from httoop.messages.body import Body
+	from httoop.semantic.request import ComposedRequest
+	from httoop.semantic.response import ComposedResponse
+	from httoop.uri import URI
+	is_req = hasattr(m, 'uri')
+	try:
+		if way == 'ctor':
+			b = Request(bytes(m.method), m.uri, m.headers, m.body, m.protocol) if is_req else Response(int(m.status), m.headers, m.body, m.protocol)   # (Response(<Status>) raises TypeError, although the docstring names Status)
+		elif way == 'attrs':
+			b = Request() if is_req else Response()
+			b.headers = m.headers
+			b.body = m.body
+			b.protocol = m.protocol
+			if is_req:
+				b.method = bytes(m.method)
+				b.uri = m.uri
+			else:
+				b.status = m.status
+		elif way == 'deepcopy':
+			b = _copy.deepcopy(m)
+		else:
+			b = Request('POST', 'http://b.example/b') if is_req else Response(201)
+			if way == 'body-of-body':
+				b.body = Body(m.body)
+			elif way == 'body-attr-of-body':
+				b.body.set(m.body)
+			elif way == 'body-fd':
+				b.body = m.body.fd
+			elif way == 'headers-copy':
+				b.headers = Headers(m.headers)
+				b.headers.update(m.headers)
+				b.headers.merge(m.headers)
+			elif way == 'uri-or-request':
+				if is_req:
+					b.uri = URI(m.uri)
+					b.uri = m.uri
+					b.uri.set(m.uri.tuple)
+			else:
+				raise ValueError(way)
+		if is_req:
+			cb = ComposedRequest(b)
+		else:
+			cb = ComposedResponse(b, c.request if way == 'uri-or-request' else Request(bytes(c.request.method), '/'))
+		b.headers['X-Custom'] = 'changed'
+		b.headers['X-New'] = '1'
+		b.headers.pop('Content-Length', None)
+		b.headers.append('Connection', 'close')
+		b.headers.setdefault('Trailer', 'X-B')
+		b.body.mimetype = 'text/html; charset=utf-16'
+		b.body.content_encoding = 'deflate'
+		b.body.chunked = not b.body.chunked
+		if mode == 'use':
+			cb.prepare()
+			b''.join(cb)
+			cb.chunked = not cb.chunked
+			cb.prepare()
+			b''.join(cb)
+		b.body.set(b'other content')
+		b.protocol = (1, 0)
+		if is_req:
+			b.method = 'PUT'
+			b.uri.path = '/changed'
+			b.uri.host = 'changed.example'
+			b.uri.port = 8081
+			b.uri.query = [('c', 'd')]
+		else:
+			b.status = 404
+		if mode == 'use':
+			cb.prepare()
+			b''.join(cb)
+		b.headers.clear()
+		b.body = None
+	except Exception as exc:
+		so['alias_failed'] = 'building a second message from the parts of the first (%s) and using it raised %s: %s' % (way, type(exc).__name__, str(exc)[:120])
+
+
+# ---------------------------------------------------------------- (10) two messages from the same argument objects
+def _hdr_arg(htype, hdrs):
+	from httoop.header import Headers
+	pairs = [(n, bytes.fromhex(v) if i % 2 else bytes.fromhex(v).decode('latin-1')) for i, (n, v) in enumerate(hdrs)]
+	if htype == 'dict':
+		return dict(pairs)
+	if htype == 'odict':
+		return _collections.OrderedDict(pairs)
+	if htype == 'headers':
+		return Headers(dict(pairs))
+	if htype == 'bytes-keys':
+		return dict((n.encode('ascii'), v) for n, v in pairs)
+	if htype == 'pairs':
+		return list(pairs)
+	if htype == 'none':
+		return None
+	raise ValueError(htype)
+
+
+def _arg_state(hd, content):
+	from types import GeneratorType
+	if hd is None:
+		h = None
+	else:
+		h = [[repr(k), repr(bytes(v) if isinstance(v, (bytes, bytearray)) else v)] for k, v in (dict.items(hd) if isinstance(hd, dict) else list(hd))]
+	if isinstance(content, (bytes, str, bytearray)):
+		b = repr(content)
+	elif isinstance(content, _io.BytesIO):
+		b = [content.getvalue().hex(), content.tell()]
+	elif hasattr(content, 'fileno'):
+		pos = content.tell()
+		content.seek(0)
+		b = [content.read().hex(), pos]
+		content.seek(pos)
+	elif isinstance(content, GeneratorType) or hasattr(content, '__next__'):
+		b = 'one-shot'
+	else:
+		b = [repr(x) for x in (content.items() if isinstance(content, dict) else content)]
+	return [h, b]
+
+
+def run_args(case):
+	from httoop import Request, Response
+	from httoop.semantic.request import ComposedRequest
+	from httoop.semantic.response import ComposedResponse
+	cr.install()
+	keep = []
+	o = {}
+
+	def make(hd, content):
+		if case['kind'] == 'req':
+			m = Request('POST', 'http://example.com/p', hd, content, (1, 1))
+			return m, ComposedRequest(m)
+		m = Response(None, hd, content, (1, 1))
+		return m, ComposedResponse(m, Request('GET', '/'))
+
+	def use(m, c):
+		if case['chunked']:
+			c.chunked = True
+		c.prepare()
+		a = b''.join(c)
+		c.prepare()
+		return [a.hex(), b''.join(c).hex()]
+	try:
+		with cr.Clock():
+			hd = _hdr_arg(case['htype'], case['hdrs'])
+			content = _content5(case['body'], keep)
+			o['before'] = _arg_state(hd, content)
+			m1, c1 = make(hd, content)
+			o['first'] = use(m1, c1)
+			# the first message is modified through its own interface, prepared and serialised again, then emptied
+			m1.headers['X-Custom'] = 'changed'
+			m1.headers['X-New'] = '1'
+			m1.headers.pop('Content-Length', None)
+			m1.body.mimetype = 'text/html; charset=utf-16'
+			c1.chunked = not case['chunked']
+			m1.protocol = (1, 0)
+			c1.prepare()
+			b''.join(c1)
+			m1.body.set(b'other content')
+			m1.headers.clear()
+			o['mid'] = _arg_state(hd, content)
+			m2, c2 = make(hd, content)
+			o['second'] = use(m2, c2)
+			o['after'] = _arg_state(hd, content)
+			m3, c3 = make(_hdr_arg(case['htype'], case['hdrs']), _content5(case['body'], keep))
+			o['fresh'] = use(m3, c3)
+	except Exception as exc:
+		o['raised'] = '%s: %s' % (type(exc).__name__, str(exc)[:160])
+	finally:
+		for fd, name in keep:
+			try:
+				fd.close()
+			except Exception:
+				pass
+			try:
+				os.unlink(name)
+			except OSError:
+				pass
+	return o
+
+
+def oracle_args(c, o):
+	if 'raised' in o:
+		return 'two messages built from the same argument objects: %s' % o['raised']
+	if o['mid'] != o['before'] or o['after'] != o['before']:
+		return 'the argument objects handed to the constructor were modified: %r became %r / %r' % (o['before'], o['mid'], o['after'])
+	content = cr.body_content(c['body'])
+	for which in ('first', 'second', 'fresh'):
+		outs = [bytes.fromhex(x) for x in o[which]]
+		for data in outs:
+			try:
+				m = cr.read_http1(data, c['kind'] == 'req', False)
+			except cr.Malformed as exc:
+				return 'the %s message built from the argument objects is not well framed: %s' % (which, exc)
+			if m['payload'] != content:
+				return 'the %s message built from the argument objects carries %d octets, the content has %d' % (which, len(m['payload']), len(content))
+		if cr.mask_date(outs[0]) != cr.mask_date(outs[1]):
+			return 'the %s message built from the argument objects: composing again gives different octets' % which
+	if o['second'] != o['fresh']:
+		return 'a second message built from the same argument objects as a first one (which was modified, prepared and serialised) differs from a message built from fresh copies: %r versus %r' % (
+			bytes.fromhex(o['second'][0])[:300], bytes.fromhex(o['fresh'][0])[:300])
+	if o['first'] != o['fresh']:
+		return 'harness exception: the first message differs from the fresh one'
+	return None
+
+
+# ---------------------------------------------------------------- generators of the fifth wave
+WS_OCTETS = b'\t\n\x0b\x0c\r \x00'
+CHARSETS5 = [('utf-16', 'gr\xfc\xdfe \u20ac'), ('utf-16-le', 'h\xe9llo \u010a\u0120'), ('utf-16-be', '\u0a0d\u200a\u0d0a'), ('utf-32', '\xe9\xe9\xe9 \u20ac'), ('ISO8859-1', 'gr\xfc\xdfe \xff'),
+	('cp1252', '\u20ac 5 \u201cq\u201d'), ('koi8-r', '\u043f\u043b\u043e\u0445\u043e'), ('shift_jis', '\u65e5\u672c\u8a9e'), ('utf-7', 'h\xe9llo+\u20ac'), ('utf-8-sig', 'h\xe9llo'),
+	('iso8859-15', '\u20ac\u0160'), ('cp437', '\xe9\u2591')]
+
+
+def _search_pieces(rng, n, pred, lengths=(1, 2, 3, 5, 8, 13, 40)):
+	"""n short pieces for which pred holds, found by trying random octet strings"""
+	out = []
+	tries = 0
+	while len(out) < n and tries < 200000:
+		tries += 1
+		p = bytes(rng.randrange(256) for _ in range(rng.choice(lengths)))
+		if pred(p):
+			out.append(p)
+	return out
+
+
+def _rseq_refuse(rng, tier, names):
+	c = rseq(rng, tier)
+	kind = c['base']['k']
+	mine = [n for n in names if REFUSALS[n][0] in ('any', kind) and not REFUSALS[n][3]]
+	for seg in c['segs']:
+		for _ in range(rng.choice([0, 1, 1, 2, 3])):
+			seg['mut'].append(['refuse', rng.choice(mine)])
+	if rng.random() < 0.5:
+		# ... and once more between two uses with nothing else in between: what is sent afterwards is what was sent before
+		seg = c['segs'][-1]
+		c['segs'].append({'mut': [['refuse', rng.choice(mine)] for _ in range(rng.choice([1, 1, 2]))], 'ops': [['c']] if rng.random() < 0.5 else [op for op in seg['ops'] if op[0] != 'ch'][:2]})
+	return c
+
+
+def gen_classes5(rng, tier):
+	big = tier == 'thorough'
+	cases = []
+	two = [['p', 1000], ['c']]
+	four = two + two
+	hello = {'t': 'bytes', 'items': [b'hello'.hex()]}
+
+	# (12) refused calls: before the first use and between two uses, every kind of source, both framings
+	sources = [{'t': 'bytes', 'items': [b'hello world'.hex()]}, {'t': 'list', 'items': [_hx('gr\xfc\xdfe'), b' \xff'.hex(), b''.hex()], 'strs': [True, False, False]},
+		{'t': 'bytesio', 'items': [b'hello world'.hex()], 'pos': 4}, {'t': 'file', 'items': [b'hello file'.hex()], 'pos': 3}, {'t': 'gen', 'items': [_hx('h\xe9llo'), b'!'.hex()], 'strs': [True, False]},
+		{'t': 'text', 'items': [_hx('gr\xfc\xdfe')], 'charset': 'ISO-8859-1'}, {'t': 'tuple', 'items': [b'ab'.hex(), b'cd'.hex()]}]
+	names = sorted(REFUSALS)
+	n = 0
+	for name in names:
+		applies, _why, _f, directed = REFUSALS[name]
+		about_body = name.startswith(('body', 'serialisation'))
+		for ki, kind in enumerate(('resp', 'req')):
+			if applies not in ('any', kind):
+				continue
+			picks = range(len(sources)) if about_body or big else [(n + ki) % len(sources), (n + 3 + 2 * ki) % len(sources)]
+			for bi in picks:
+				n += 1
+				body = dict(sources[bi])
+				ch = (n + bi) % 2 == 0
+				first = ([['ch', True]] if ch else []) + two
+				mut = [['refuse', name]]
+				pattern = (n // 2) % 4 if not directed else 1
+				kw = {}
+				if (n // 3) % 5 == 0 and kind == 'resp' and 'Encoding' not in name:
+					kw['coding'] = 'gzip'   # (a coded response is framed by chunks: the carried-over state includes the codec on the Body)
+				base = _base(kind, body, **kw)
+				if pattern == 0:
+					segs = [{'mut': [], 'ops': first}, {'mut': mut, 'ops': [['c']]}, {'mut': [], 'ops': two}]
+				elif pattern == 1:
+					segs = [{'mut': [], 'ops': first}, {'mut': mut, 'ops': two + [['c']]}]
+				elif pattern == 2:
+					segs = [{'mut': mut, 'ops': first + two}]
+				else:
+					segs = [{'mut': [], 'ops': first}, {'mut': mut + [['refuse', names[(n * 7) % len(names)]]] if not REFUSALS[names[(n * 7) % len(names)]][3] and REFUSALS[names[(n * 7) % len(names)]][0] in ('any', kind) else mut, 'ops': [['c'], ['c']]},
+						{'mut': mut, 'ops': two}]
+				cases.append({'k': 'seq', 'base': base, 'segs': segs})
+	# the shortest forms: a prepared message, the assignment of a closed file is refused, the message is serialised
+	for kind in ('resp', 'req'):
+		for ch in (False, True):
+			cases.append({'k': 'seq', 'base': _base(kind, dict(hello)), 'segs': [{'mut': [], 'ops': ([['ch', True]] if ch else []) + two}, {'mut': [['refuse', 'body = closed file']], 'ops': [['c']]}]})
+	for _ in range(3000 if big else 110):
+		cases.append(_rseq_refuse(rng, tier, names))
+
+	# (10) a second message built from the parts of the first; two messages from the same argument objects
+	n = 0
+	for way in ALIAS_WAYS:
+		for ki, kind in enumerate(('resp', 'req')):
+			for bi, body in enumerate(sources[:4] + [sources[6]]):
+				n += 1
+				if way == 'deepcopy' and body['t'] == 'file':
+					continue   # a file object cannot be copied
+				if not big and (n + ki) % 2 and way not in ('ctor', 'attrs'):
+					continue
+				ch = (n + bi) % 2 == 0
+				first = ([['ch', True]] if ch else []) + two
+				mode = 'use' if n % 3 else 'touch'
+				if n % 2:
+					segs = [{'mut': [], 'ops': first}, {'mut': [['alias', way, mode]], 'ops': [['c']]}, {'mut': [], 'ops': two}]
+				else:
+					segs = [{'mut': [['alias', way, mode]], 'ops': first + two}, {'mut': [['alias', ALIAS_WAYS[(n + 1) % 5], 'use']], 'ops': two}]
+				cases.append({'k': 'seq', 'base': _base(kind, dict(body), hdrs=[['X-Custom', b'a'.hex()], ['Connection', b'keep-alive'.hex()]], trailer=[['X-T', b'tv'.hex()]] if ch else []), 'segs': segs})
+	arg_bodies = [{'t': 'list', 'items': [b'hel'.hex(), b''.hex(), b'lo'.hex(), b'hel'.hex()]}, {'t': 'bytesio', 'items': [b'hello world'.hex()], 'pos': 4}, {'t': 'file', 'items': [b'hello file'.hex()], 'pos': 3},
+		{'t': 'bytes', 'items': [b'hello'.hex()]}, {'t': 'text', 'items': [_hx('gr\xfc\xdfe')]}, {'t': 'list', 'py': 'odict', 'items': [b'z'.hex(), b'a'.hex(), b'm'.hex()]},
+		{'t': 'list', 'py': 'deque', 'items': [b'b'.hex(), b'a'.hex(), b'b'.hex()]}, {'t': 'bytearray', 'items': [b'hello'.hex()]}, {'t': 'tuple', 'items': [_hx('\xe9'), b'x'.hex()], 'strs': [True, False]}]
+	arg_hdrs = [[['X-Custom', b'a'.hex()], ['content-length', b'99'.hex()], ['Connection', b'close'.hex()]], [['Zzz', b'last'.hex()], ['Aaa', b'first'.hex()], ['Transfer-Encoding', b'chunked'.hex()]],
+		[['Content-Type', b'text/html; charset=ISO8859-1'.hex()], ['Set-Cookie', b'a=b'.hex()]], []]
+	n = 0
+	for htype in ('dict', 'odict', 'headers', 'bytes-keys', 'pairs', 'none'):
+		for bi, body in enumerate(arg_bodies):
+			for kind in ('resp', 'req'):
+				n += 1
+				if not big and n % 2 and htype not in ('dict', 'headers'):
+					continue
+				hd = arg_hdrs[(n + bi) % len(arg_hdrs)]
+				if kind == 'req':
+					hd = [h for h in hd if h[0].lower() not in ('content-length', 'set-cookie')]   # (D46: a caller-set Content-Length of a request)
+				cases.append({'k': 'args', 'kind': kind, 'htype': htype, 'hdrs': [] if htype == 'none' else hd, 'body': dict(body), 'chunked': (n + bi) % 3 == 0})
+
+	# (11) the content in every type the constructor and the setter take
+	pieces = [b'zz', b'a', b'', b'mm\r\n', b'0']
+	variants = [('bytes', 'bytes-sub'), ('text', 'str-sub'), ('list', 'dict'), ('list', 'odict'), ('list', 'dictkeys'), ('list', 'dictvalues'), ('list', 'deque'), ('list', 'set1'), ('list', 'frozenset1'),
+		('list', 'reiter'), ('list', 'list-sub'), ('tuple', 'tuple-sub'), ('gen', 'iterlist'), ('gen', 'genexpr'), ('gen', 'genfunc'), ('gen', 'zipgen'), ('bytesio', 'bytesio-sub'), ('file', 'file-rw'), ('file', 'spooled')]
+	n = 0
+	for t, py in variants:
+		if t in ('bytes', 'text', 'bytesio', 'file'):
+			items, strs = [_hx('gr\xfc\xdfe \u20ac')], None
+		elif py in ('set1', 'frozenset1'):
+			items, strs = [b'only one piece'.hex()], None
+		elif py in ('dict', 'odict', 'dictkeys'):
+			items, strs = [x.hex() for x in pieces if x] + [_hx('\xe9')], [False] * 4 + [True]   # keys: distinct, in insertion order
+		else:
+			items, strs = [x.hex() for x in pieces] + [pieces[0].hex(), _hx('\xe9')], [False] * 6 + [True]
+		body = {'t': t, 'py': py, 'items': items, 'pos': 3}
+		if strs:
+			body['strs'] = strs
+		for kind in ('resp', 'req'):
+			for ch in (False, True):
+				n += 1
+				how = ('attr', 'set', 'bodyobj')[n % 3]
+				segs = [{'mut': [['body', dict(body), how]], 'ops': ([['ch', True]] if ch else []) + four}]
+				if n % 2:
+					segs = [{'mut': [], 'ops': two}] + segs + [{'mut': [], 'ops': two}]
+				cases.append({'k': 'seq', 'base': _base(kind), 'segs': segs})
+		cases.append({'k': 'body', 'body': dict(body), 'chunked': n % 2 == 0, 'coding': [None, 'gzip', 'deflate'][n % 3], 'trailer': []})
+		if t in ('list', 'gen'):
+			cases.append({'k': 'seq', 'base': _base('resp', coding='deflate'), 'segs': [{'mut': [['body', dict(body), 'attr']], 'ops': four}]})
+	# ... the fields the framing depends on through the remaining argument types
+	fields = [('Transfer-Encoding', 'chunked'), ('Content-Encoding', 'gzip'), ('Content-Type', 'text/plain; charset=ISO-8859-1'), ('Content-Length', '3'), ('Connection', 'close'), ('Trailer', 'X-T')]
+	text_list = {'t': 'list', 'items': [_hx('gr\xfc\xdfe'), b' \xff'.hex()], 'strs': [True, False]}
+	for i, (name, value) in enumerate(fields):
+		for j, way in enumerate(HVIA_WAYS5):
+			for kind in ('resp', 'req'):
+				if kind == 'req' and name in ('Content-Encoding', 'Content-Length'):
+					continue   # D43 / D46
+				if not big and (i + j + (kind == 'req')) % 2:
+					continue
+				spelled = (name, name.lower(), name.upper())[(i + j) % 3]
+				body = dict(text_list) if (i + j) % 2 else {'t': ('bytesio', 'file', 'gen')[j % 3], 'items': [b'hello world'.hex()], 'pos': 4}
+				cases.append(_one(kind, [['hvia', way, spelled, value.encode('latin-1').hex()]], body=body, ops=four))
+	# ... status, method, request target and query
+	for i, how in enumerate(('bytes',)):
+		for code in (204, 304, 404, 200):
+			cases.append({'k': 'seq', 'base': _base('resp', dict(hello)), 'segs': [{'mut': [], 'ops': two}, {'mut': [['status', code, 'Custom Reason', how]], 'ops': four}]})
+	for mth in ('PUT', 'TRACE', 'M-SEARCH'):
+		cases.append({'k': 'seq', 'base': _base('req', dict(hello)), 'segs': [{'mut': [], 'ops': two}, {'mut': [['method', mth, 'attr-bytes']], 'ops': four}]})
+	spec = {'host': 'other.example', 'segs': ['', 'b', 'a', 'b'], 'query': [['z', '1'], ['a', '2'], ['z', '3'], ['m', '']]}
+	for i, how in enumerate(('str', 'bytes', 'uriobj', 'tuple', 'dict', 'q-list', 'q-tuple', 'q-iter', 'q-gen', 'q-map', 'q-chain', 'q-lists')):
+		cases.append({'k': 'seq', 'base': _base('req', dict(hello), port=8080 if i % 2 else None), 'segs': [{'mut': [['target', spec, how]], 'ops': ([['ch', True]] if i % 2 else []) + four}]})
+		cases.append({'k': 'seq', 'base': _base('req', dict(text_list)), 'segs': [{'mut': [], 'ops': two}, {'mut': [['target', spec, how]], 'ops': two}]})
+
+	# (13) + (15) the charset of the body through every knob, before and after the content
+	n = 0
+	for ci, (cs, text) in enumerate(CHARSETS5):
+		shapes = _text_shapes(text)
+		for hi, how in enumerate(BODY_HOWS5 + ('encode', 'iterencode', 'ctor-mime')):
+			for si in ((ci + hi) % 6, (ci + 2 * hi + 3) % 6) if not big else range(6):
+				shape = shapes[si]
+				if how == 'encode' and shape['t'] != 'text':
+					continue
+				if how == 'iterencode' and (shape['t'] == 'text' or not all(shape.get('strs') or [False])):
+					continue
+				# (every text piece is encoded on its own - a BOM / a shift sequence per piece: that is what handing over text pieces means, and what body_items computes)
+				n += 1
+				kind = 'resp' if n % 2 else 'req'
+				ch = n % 3 == 0
+				spec5 = dict(shape, charset=cs)
+				segs = [{'mut': [['body', spec5, how]], 'ops': ([['ch', True]] if ch else []) + four}]
+				if n % 4 == 0:
+					segs = [{'mut': [], 'ops': two}] + segs
+				cases.append({'k': 'seq', 'base': _base(kind), 'segs': segs, 'nocoq': n % 2 == 0})
+	# the same operations in every order the API allows
+	steps_resp = {'B': None, 'C': ['charset', 'ISO8859-1', 'encoding'], 'E': ['coding', 'gzip'], 'T': ['te', True, 'composer'], 'R': ['trailer', 'X-T', b'tv'.hex()],
+		'H': ['hset', 'Content-Type', b'text/html; charset=utf-16'.hex()], 'S': ['status', 404, None, 'int']}
+	steps_req = {'B': None, 'C': ['charset', 'koi8-r', 'mimetype'], 'T': ['te', True, 'body'], 'R': ['trailer', 'X-T', b'tv'.hex()], 'H': ['hset', 'Content-Type', b'text/html; charset=utf-16'.hex()],
+		'M': ['method', 'PUT', 'attr'], 'U': ['te', True, 'header']}
+	n = 0
+	for kind, steps, text in (('resp', steps_resp, 'gr\xfc\xdfe'), ('req', steps_req, '\u043f\u043b\u043e\u0445\u043e')):
+		keys = sorted(steps)
+		perms = list(_itertools.permutations(keys, 4)) + list(_itertools.permutations(keys, len(keys)))
+		rng.shuffle(perms)
+		for perm in perms[:(400 if big else 55)]:
+			n += 1
+			if 'B' not in perm:
+				perm = perm + ('B',)
+			shape = _text_shapes(text)[n % 6]
+			cs = steps['C'][1]
+			mut = []
+			for key in perm:
+				if key == 'B':
+					# text is encoded when it is assigned, text pieces when they are sent: the charset in force at that moment
+					before = 'C' in perm and perm.index('C') < perm.index('B')
+					mut.append(['body', dict(shape, charset=cs if (before or (shape['t'] != 'text' and 'C' in perm)) else None), ('attr', 'set')[n % 2]])
+				elif key == 'T' and 'E' in perm:
+					continue   # a coded response is chunked anyway
+				else:
+					mut.append(list(steps[key]))
+			cases.append({'k': 'seq', 'base': _base(kind), 'segs': [{'mut': mut, 'ops': four}]})
+	# a knob on a subclass of the composer
+	cases.append({'k': 'seq', 'base': _base('req', dict(hello)), 'segs': [{'mut': [], 'ops': four}], 'useragent': 'verif/5 (x; y)', 'nocoq': True})
+
+	# (14) the caller's order of pieces
+	orders = [[b'b', b'a', b'c'], [b'c', b'b', b'a'], [b'a', b'a', b'a'], [b'b', b'a', b'b', b'a'], [b'z', b'', b'a', b'', b'z'], [b'10', b'9', b'1', b'0'], [b'\r\n', b'0', b'\r\n', b'\r\n']]
+	for i, order in enumerate(orders):
+		for j, t in enumerate(('list', 'tuple', 'gen')):
+			kind = 'resp' if (i + j) % 2 else 'req'
+			cases.append(_msg(kind, {'t': t, 'items': [x.hex() for x in order]}, chunked=(i + j) % 3 != 0, coding=('deflate' if kind == 'resp' and i % 3 == 0 else None)))
+		cases.append({'k': 'seq', 'base': _base('resp' if i % 2 else 'req'), 'segs': [{'mut': [['body', {'t': 'list', 'py': ('deque', 'reiter', 'dictvalues')[i % 3], 'items': [x.hex() for x in order]}, 'attr']], 'ops': [['ch', True]] + four}]})
+
+	# (16) contents found by direct search: the coded form of a piece ends in / contains white space, NUL, CR LF
+	def ends_ws(coder):
+		return lambda p: coder(p)[-1:] in (b'\t', b'\n', b'\x0b', b'\x0c', b'\r', b' ')
+	deflate = _zlib.compress
+	finds = {
+		'deflate-ends-ws': _search_pieces(rng, 600 if big else 150, lambda p: (_zlib.adler32(p) & 0xff) in b'\t\n\x0b\x0c\r '),
+		'deflate-ends-nul': _search_pieces(rng, 100 if big else 24, lambda p: (_zlib.adler32(p) & 0xff) == 0),
+		'deflate-has-crlf': _search_pieces(rng, 100 if big else 24, lambda p: b'\r\n' in deflate(p) or deflate(p).endswith(b'\r')),
+		'crc-ws': _search_pieces(rng, 200 if big else 48, lambda p: (_zlib.crc32(p) & 0xff) in b'\t\n\x0b\x0c\r ' or (_zlib.crc32(p) >> 24) in b'\t\n\x0b\x0c\r '),
+		'crc-crlf': _search_pieces(rng, 40 if big else 12, lambda p: b'\r\n' in _zlib.crc32(p).to_bytes(4, 'little')),
+	}
+	n = 0
+	for what, found in sorted(finds.items()):
+		coding = 'deflate' if what.startswith('deflate') else 'gzip'
+		for i in range(0, len(found) - 2, 3):
+			n += 1
+			group = found[i:i + 3]
+			t = ('list', 'gen', 'tuple', 'list')[n % 4]
+			body = {'t': t, 'items': [x.hex() for x in group]}
+			# (a coded response; for one in four the pieces go out uncoded in chunks, where the chunk data ends in the octets searched for)
+			if n % 4 == 0:
+				cases.append(_msg('req', body, chunked=True, ops=two, nocoq=n % 8 != 0))
+			else:
+				cases.append(_msg('resp', body, coding=coding, ops=two, nocoq=n % 5 != 0))
+		for p in found[:6]:   # ... and alone, from every kind of source that is cut into blocks rather than pieces
+			n += 1
+			cases.append(_msg('resp', {'t': ('bytes', 'bytesio', 'file', 'text')[n % 4] if all(x < 0x80 for x in p) else ('bytes', 'bytesio', 'file')[n % 3], 'items': [p.hex()]}, coding=coding, ops=two, nocoq=n % 3 != 0))
+	edges = [b'\t', b'\n', b'\x0b', b'\x0c', b'\r', b' ', b'\x00', b'\r\n', b'\r\n\r\n', b'0\r\n\r\n', b' \t', b'\x00\x00']
+	for i, e in enumerate(edges):
+		for j, (a, b) in enumerate(((e, b'x'), (b'x', e), (e, e), (e + b'x' + e, b'y'))):
+			kind = 'resp' if (i + j) % 2 else 'req'
+			t = ('list', 'gen', 'tuple')[(i + j) % 3]
+			cases.append(_msg(kind, {'t': t, 'items': [a.hex(), b.hex()]}, chunked=j % 2 == 0, ops=two, coding=('gzip', 'deflate')[j // 2] if kind == 'resp' and i % 4 == 0 else None))
+		cases.append(_msg('resp' if i % 2 else 'req', {'t': ('bytes', 'bytesio', 'file')[i % 3], 'items': [(e + b'body' + e).hex()]}, chunked=i % 2 == 0, ops=two))
+	# text whose octets in the charset of the body contain / end in 0x0A 0x0D 0x20 0x00
+	for i, (cs, text) in enumerate((('utf-16-be', '\u0120'), ('utf-16-be', '\u010a\u010d'), ('utf-16-le', '\u2000'), ('utf-16-le', '\u0a00\u0d00'), ('utf-16-be', '\u0d0a'), ('utf-16-le', '\u0a0d'),
+			('utf-32-be', '\u0120'), ('utf-32-le', ' '), ('utf-16-le', 'a'), ('utf-16-be', 'a\n'), ('cp1252', '\xa0'), ('ISO8859-1', '\x85\xa0'))):
+		for j, shape in enumerate(_text_shapes(text)[:3]):
+			kind = 'resp' if (i + j) % 2 else 'req'
+			cases.append(_msg(kind, dict(shape, charset=cs), chunked=(i + j) % 3 == 0, ops=two))
+
+	# (17) 2^k and 2^k +- 1 for k = 9 .. 16, through each of the three ways a length is computed (size of a file, size of a buffer, sum of the pieces)
+	n = 0
+	for k in range(9, 17):
+		for d in (-1, 0, 1):
+			size = 2 ** k + d
+			n += 1
+			data = (bytes(range(256)) * (size // 256 + 1))[:size] if n % 2 else b'a' * size
+			for j, t in enumerate(('file', 'bytesio', 'list')):
+				kind = 'resp' if (n + j) % 2 else 'req'
+				items = [data.hex()] if t != 'list' else [data[:size // 3].hex(), data[size // 3:].hex()]
+				cases.append(_msg(kind, {'t': t if (n + j) % 4 else {'file': 'file', 'bytesio': 'bytes', 'list': 'gen'}[t], 'items': items, 'pos': (size // 2, size, 0)[j]}, ops=[['p', 1000], ['c'], ['c']], nocoq=size > 1100))
+			# one piece of exactly that length in a chunk; a coded response whose blocks are coded one by one
+			cases.append(_msg('req' if n % 2 else 'resp', {'t': ('list', 'tuple', 'gen')[n % 3], 'items': [(b'p' * size).hex(), b'q'.hex()]}, chunked=True, ops=two, nocoq=size > 1100))
+			if size <= 16385 and d == 0 or big:
+				cases.append(_msg('resp', {'t': ('file', 'bytesio')[n % 2], 'items': [data.hex()], 'pos': 1}, coding=('gzip', 'deflate')[n % 2], ops=two, nocoq=True))
+	return cases
+
+
+def _knobs(case, m, c):
+	"""configuration on a subclass of the composer (class attribute)"""
+	if case.get('useragent') and hasattr(m, 'uri'):
+		return type('ConfiguredRequest', (type(c),), {'USER_AGENT': case['useragent']})(m)
+	return c
